@@ -82,6 +82,7 @@ class World:
         self.nonce = 0
         self.completed = {}     # final-name .so path -> bytes at first completion
         self.events = []
+        self.durations = False  # tool-chain stages take realistic (simulated) time
 
     def mtime(self):
         if self.gran:
@@ -94,6 +95,20 @@ class World:
             os.utime(path, (t, t))
         except OSError:
             pass
+
+    def stamp_parent(self, path):
+        # the kernel updates a directory's mtime (with the REAL clock) whenever an entry is added or
+        # removed; keep directory mtimes on the simulated clock as well
+        self.stamp(os.path.dirname(os.path.abspath(str(path))))
+
+    def stage(self, actor, name, lo, hi):
+        """a tool-chain stage that takes simulated time; other processes may run meanwhile"""
+        if not self.durations:
+            return
+        d = lo + (hi - lo) * self.chunks.choice(8) / 7.0
+        self.now += d / 2
+        actor.yield_point(name + '-running')
+        self.now += d / 2
 
 
 class FileProxy:
@@ -111,8 +126,11 @@ class FileProxy:
         flags = os.O_WRONLY | os.O_CREAT | (os.O_APPEND if 'a' in mode else os.O_TRUNC)
         if 'x' in mode:
             flags |= os.O_EXCL
+        existed = os.path.exists(path)
         self.fd = os.open(path, flags, 0o644)
         self._stamp()
+        if not existed:
+            self.w.stamp_parent(path)
 
     def _stamp(self):
         try:
@@ -207,8 +225,11 @@ class OsFacade:
                 r = real(*args, **kw)
                 if name in ('rename', 'replace', 'link', 'symlink') and len(args) > 1:
                     w.events.append((name, os.path.basename(str(args[1]))))
+                    w.stamp_parent(args[1])
                 if name in ('mkdir', 'makedirs'):
                     w.stamp(args[0])
+                if name in ('rename', 'replace', 'unlink', 'remove', 'rmdir', 'mkdir', 'makedirs'):
+                    w.stamp_parent(args[0])
                 return r
             return mediated
         return real
@@ -233,6 +254,7 @@ class TempfileFacade:
         d = os.path.join(dir or self._w.root, self._name(prefix, suffix))
         os.mkdir(d, 0o700)
         self._w.stamp(d)
+        self._w.stamp_parent(d)
         return d
 
     def mkstemp(self, suffix=None, prefix=None, dir=None, text=False):
@@ -286,11 +308,13 @@ class ShutilFacade:
                     self._a.yield_point('rmtree-unlink:' + f)
                     try:
                         os.unlink(os.path.join(dp, f))
+                        self._w.stamp(dp)
                     except OSError:
                         if not ignore_errors:
                             raise
                 try:
                     os.rmdir(dp)
+                    self._w.stamp_parent(dp)
                 except OSError:
                     if not ignore_errors:
                         raise
@@ -337,6 +361,29 @@ class ShutilFacade:
 
     def __getattr__(self, name):
         return getattr(_shutil, name)
+
+
+class TimeFacade:
+    """the simulated clock: the only clock the code under test can read"""
+
+    def __init__(self, world, actor):
+        self._w, self._a = world, actor
+
+    def time(self):
+        return self._w.now
+
+    monotonic = perf_counter = time
+
+    def time_ns(self):
+        return int(self._w.now * 1e9)
+
+    def sleep(self, s):
+        self._w.now += max(0.0, float(s))
+        self._a.yield_point('sleep')
+
+    def __getattr__(self, name):
+        import time as _t
+        return getattr(_t, name)
 
 
 class SysFacade:
@@ -460,6 +507,7 @@ class StubBuildExt:
                 except OSError as e:
                     raise StubCompileError('gcc: %s' % e)
                 ob = make_o(cb)
+                w.stage(a, 'gcc', 3.0, 40.0)
                 obj = os.path.join(self.build_temp, os.path.splitext(c)[0].lstrip('/') + '.o')
                 p.os.makedirs(os.path.dirname(obj), exist_ok=True)
                 with p.open(obj, 'wb') as f:
@@ -512,6 +560,8 @@ class Proc:
                     g[name] = ShutilFacade(world, actor)
                 elif val.__name__ == 'importlib':
                     g[name] = ImportlibFacade(self)
+                elif val.__name__ == 'time':
+                    g[name] = TimeFacade(world, actor)
                 elif val.__name__ == 'os.path' or val is os.path:
                     g[name] = os.path
         g['cythonize'] = self.cythonize
@@ -534,6 +584,7 @@ class Proc:
                 with open(pyx, 'rb') as f:
                     pb = f.read()
                 cb = make_c(pb)
+                w.stage(a, 'cython', 1.0, 3.0)
                 a.yield_point('cython-write:' + os.path.basename(c_file))
                 if os.path.exists(c_file):
                     self.os.unlink(c_file)
@@ -650,6 +701,9 @@ def _run(ctx, root):
         nproc = 1 + cfg.choice(3)
     if fam == 'clock':
         w.gran = cfg.pick([1, 2, 0])
+    w.durations = bool(cfg.chance(35))
+    if w.durations:
+        ctx.count('knob.realistic-toolchain-durations')
     kills_left = {'concurrent': 0, 'crash': 1 + cfg.choice(3), 'mixed': 1 + cfg.choice(2), 'enospc': 0,
                   'clock': cfg.choice(2)}[fam]
     enospc_left = 1 + cfg.choice(2) if fam == 'enospc' else 0
@@ -670,7 +724,7 @@ def _run(ctx, root):
         w.now = max(1.0, w.now + d)
         if d < 0:
             ctx.count('fault.clock.backward.fired')
-        in_build = a.started and not a.label.startswith(('start', 'import', 'makedirs:modules'))
+        in_build = a.started and not a.label.startswith(('start', 'import', 'makedirs:modules', 'sleep'))
         if state['last'] is not None and state['last'] is not a and in_build and not state['last'].done:
             state['switch_in_build'] += 1
         state['last'] = a
@@ -824,6 +878,7 @@ def _run(ctx, root):
         ctx.count('runs.with.interleaved.builds')
     ctx.count('context.switches.inside.builds', state['switch_in_build'])
     ctx.count('scheduler.steps', sched.step)
+    ctx.interleaving = [fam, sched.order]
     ctx.state = (fam, nproc, tuple(sorted(os.listdir(w.moddir))) if os.path.isdir(w.moddir) else ())
     ctx.trace.append(['schedule', ''.join(n[1:] if len(n) == 2 else '(' + n + ')' for n in sched.order[:300])])
 
